@@ -587,11 +587,32 @@ theorem repoStat_total_only_ok (l m : List (Option (Nat × Nat))) :
 /-- all peers failing: the zero totals with status 200 (what the handler answers; `repoStatH`'s `fail .repoStat` arm) -/
 theorem repoStat_total_all_failed (n : Nat) : statTotal (List.replicate n none) = (0, 0) := statTotal_none n
 
-/-- the handler model's answer is that sum over the peers the fake cluster has (each reports 1000 / 100000) -/
-theorem repoStat_model_total (e : Env) (hp : e.fail .peers = false) (hs : e.fail .repoStat = false) :
-    (repoStatH e).items = [dec (statTotal (List.replicate e.npeers (some (1000, 100000)))).1,
-                           dec (statTotal (List.replicate e.npeers (some (1000, 100000)))).2] := by
-  simp [repoStatH, hp, hs, statTotal_const]
+/-- the handler model's answer (what the correspondence run compares with the real proxy, per-peer failures included) is
+    that sum over what the peers answered: failed peers are skipped, whichever they are -/
+theorem repoStat_model_total (e : Env) (hp : e.fail .peers = false) :
+    (repoStatH e).items = [dec (statTotal (statAnswers e)).1, dec (statTotal (statAnswers e)).2] ∧
+    (repoStatH e).status = 200 ∧
+    (repoStatH e).rpcs.map (·.ok) = true :: (statAnswers e).map Option.isSome := by
+  have hsum : ∀ l : List Nat, statTotal (l.map (fun k => if statOk e k then some (1000, 100000) else none)) =
+      ((l.filter (statOk e)).length * 1000, (l.filter (statOk e)).length * 100000) := by
+    intro l
+    induction l with
+    | nil => simp [statTotal]
+    | cons k l ih =>
+      cases hk : statOk e k
+      · simpa [statTotal, hk, List.filter_cons] using ih
+      · simp only [List.map_cons, hk, if_true, statTotal, ih, List.filter_cons, List.length_cons]
+        ext <;> simp <;> omega
+  refine ⟨?_, ?_, ?_⟩
+  · simp [repoStatH, hp, statAnswers, statOkCount, hsum]
+  · simp [repoStatH, hp]
+  · simp only [repoStatH, hp, statAnswers]
+    simp [List.map_map, Function.comp_def]
+    intro k _
+    cases statOk e k <;> simp
+
+example : (repoStatH { npeers := 3, statBad := [1] }).items = [dec 2000, dec 200000] ∧
+    ((repoStatH { npeers := 3, statBad := [1] }).rpcs.map (·.ok)) = [true, true, false, true] := by decide
 
 example : statTotal [some (1000, 100000), none, some (7, 9)] = (1007, 100009) := by decide
 
